@@ -3,7 +3,7 @@
    emits nothing matches only spaces and tabs; consequently every scan of every
    input in every mode tiles the input with blank gaps and ends in one EOF. *)
 From HclV Require Import Base.Prelude Gen.TokenTypes Gen.UnicodeDerived
-  Lex.Scanner Lex.ScannerProofs Lex.Positions Lex.HclLex.
+  Lex.Scanner Lex.ScannerProofs Lex.Positions Lex.PositionsProofs Lex.HclLex.
 
 (* ---- identifier classes: fast path = generated table --------------------------- *)
 
@@ -132,7 +132,7 @@ Qed.
 
 (* ---- no rule emits an EOF token ------------------------------------------------------ *)
 
-Definition blank_gap (g : list Z) : Prop := forallb is_blank g = true.
+(* blank_gap is_blank g : g consists of spaces and tabs (PositionsProofs) *)
 
 Lemma self_chars_small : forall c, existsb (Z.eqb c) self_chars = true -> c <> TokenEOF.
 Proof.
@@ -173,7 +173,7 @@ Qed.
 Theorem hcl_tokens_tile : forall entry data its,
   hcl_scan entry data = (its, Done) ->
   let toks := tokens_of its in
-  tiled blank_gap 0 data toks /\
+  tiled (blank_gap is_blank) 0 data toks /\
   ordered 0 toks /\
   (forall t, In t toks -> k_bytes t = slice data (k_s t) (k_e t)) /\
   (exists body, toks = body ++ [mkTok TokenEOF (zlen data) (zlen data) []] /\
@@ -188,4 +188,168 @@ Proof.
     destruct Horig as [(st & Hty)|(st & st' & r & s & lk & n & e & Hr & Hm & Hlk & Ha & Hty)].
     + rewrite Hty. simpl. unfold hcl_err_ty. destruct entry, (l_stack st); discriminate.
     + eapply hcl_emitted_types; eauto.
+Qed.
+
+(* ---- positions of the HCL lexer ---------------------------------------------------------- *)
+
+Lemma is_blank_not_nl : forall c, is_blank c = true -> is_nl_lexer [c] = false.
+Proof.
+  intros c H. unfold is_blank in H. apply orb_true_iff in H.
+  destruct H as [H|H]; apply Z.eqb_eq in H; subst c; reflexivity.
+Qed.
+
+(* scanTokens as a whole (any mode, any input with or without BOM, any start
+   position, any cluster list): if no action panics and the token boundaries
+   and gap bytes are cluster boundaries of gcs, the model returns tokens and
+   each token's Start and End are the canonical positions (pos_at, counted
+   from the start position placed after the BOM) of its byte offsets. *)
+Theorem lex_positions_faithful : forall mode src start gcs its,
+  hcl_scan mode (fst (scan_start src start)) = (its, Done) ->
+  aligned gcs 0 (tokens_of its) ->
+  exists out,
+    scan_tokens src start mode gcs = LexOk out /\
+    Forall2 (tok_faithful (snd (scan_start src start)) (fst (scan_start src start)) gcs)
+            (tokens_of its) out.
+Proof.
+  intros mode src start gcs its Hscan Hal.
+  pose proof (hcl_tokens_tile _ _ _ Hscan) as (Ht & _).
+  destruct (positions_faithful is_blank is_blank_not_nl (snd (scan_start src start))
+              (fst (scan_start src start)) gcs (tokens_of its) Ht Hal) as (out & Hout & Hf).
+  exists out. split; [|exact Hf].
+  unfold scan_tokens. destruct (scan_start src start) as [data st] eqn:Es. cbn [fst snd] in *.
+  rewrite Hscan, Hout. reflexivity.
+Qed.
+
+(* DESIGN §9 #13, on the models: "a\rb\nc\n". The lexer puts the identifier c
+   on line 2 (a lone CR is one column); RangeScanner with bufio.ScanLines
+   (tokens "a\rb" advance 4, "c" advance 2) puts the same byte on line 3. *)
+Theorem lexer_and_range_scanner_disagree_on_lone_cr :
+  let src := [97; 13; 98; 10; 99; 10] in
+  (exists toks tk,
+     lex_config src initial_pos [1; 1; 1; 1; 1; 1] = LexOk toks /\ In tk toks /\
+     t_bytes tk = [99] /\ r_start (t_range tk) = mkPos 2 1 4) /\
+  range_scanner initial_pos src [(4, 3); (2, 1)] [[1; 1; 1; 1]; [1; 1]] =
+    [mkRange (mkPos 1 1 0) (mkPos 2 2 3); mkRange (mkPos 3 1 4) (mkPos 3 2 5)].
+Proof.
+  split; [|vm_compute; reflexivity].
+  eexists. eexists. split; [vm_compute; reflexivity|].
+  split; [do 4 right; left; reflexivity|]. split; reflexivity.
+Qed.
+
+(* ---- no action of the HCL machine panics: every scan ends normally -------------------- *)
+
+(* the call stack alternates as the grammar says: Main calls String/Heredoc,
+   String/Heredoc/Bare call Main; the bottom frame is an entry scanner *)
+Inductive wf_frames : list hmode -> Prop :=
+  | wf_base m : (m = MMain \/ m = MBare \/ m = MIdentOnly) -> wf_frames [m]
+  | wf_str l : wf_frames (MMain :: l) -> wf_frames (MString :: MMain :: l)
+  | wf_hd l : wf_frames (MMain :: l) -> wf_frames (MHeredoc :: MMain :: l)
+  | wf_main t l : (t = MString \/ t = MHeredoc \/ t = MBare) -> wf_frames (t :: l) ->
+                  wf_frames (MMain :: t :: l).
+
+Definition not_main (m : hmode) : bool := match m with MMain => false | _ => true end.
+Definition is_hd (m : hmode) : bool := match m with MHeredoc => true | _ => false end.
+Definition cnt (f : hmode -> bool) (l : list hmode) : nat := length (filter f l).
+
+(* retBraces has one entry per suspended template scanner; heredocs has one
+   entry per heredoc scanner on the stack (including the current one) *)
+Definition hinv (st : hstate) : Prop :=
+  wf_frames (l_cur st :: l_stack st) /\
+  length (l_ret st) = cnt not_main (l_stack st) /\
+  length (l_hdocs st) = cnt is_hd (l_cur st :: l_stack st).
+
+Lemma ident_cont_le : forall s skip acc, (ident_cont s skip acc <= acc + length s)%nat.
+Proof.
+  induction s as [|b r IH]; intros skip acc; simpl; [lia|].
+  destruct skip as [|k].
+  - destruct (b =? 45); [specialize (IH O (S acc)); lia|].
+    destruct (id_continue_len (b :: r)) as [[|a]|]; try lia. specialize (IH a (S acc)). lia.
+  - specialize (IH k (S acc)). lia.
+Qed.
+
+Lemma ident_len_le s : (ident_len s <= length s)%nat.
+Proof.
+  destruct s as [|b r]; simpl; [lia|].
+  destruct (b =? 95); [pose proof (ident_cont_le r 0 1); lia|].
+  destruct (id_start_len (b :: r)) as [[|a]|]; try lia. pose proof (ident_cont_le r a 1). lia.
+Qed.
+
+Lemma newline_len_le s : (newline_len s <= length s)%nat.
+Proof.
+  destruct s as [|a [|b r]]; simpl; try lia.
+  - destruct a as [|p|p]; try (simpl; lia). do 4 (destruct p as [p|p|]; try (simpl; lia)).
+  - destruct a as [|p|p]; try (simpl; lia).
+    do 4 (destruct p as [p|p|]; try (simpl; lia)).
+    destruct b as [|q|q]; try (simpl; lia). do 4 (destruct q as [q|q|]; try (simpl; lia)).
+Qed.
+
+Lemma ident_len_dash x : ident_len (45 :: x) = O.
+Proof.
+  unfold ident_len. change (45 =? 95) with false. cbv iota.
+  unfold id_start_len.
+  assert (E : bucket id_start_tree 45 = []) by (vm_compute; reflexivity).
+  rewrite E. reflexivity.
+Qed.
+
+(* beginHeredocTemplate never indexes an empty marker *)
+Lemma heredoc_marker_some s n :
+  m_heredoc_begin s = Some (n, n) -> exists m, heredoc_marker (firstn (Nat.max 1 n) s) = Some m.
+Proof.
+  unfold m_heredoc_begin. destruct s as [|c0 [|c1 r]]; try discriminate.
+  destruct (c0 =? 60) eqn:E0; [apply Z.eqb_eq in E0; subst c0|
+    destruct c0 as [|p|p]; try discriminate; do 6 (destruct p as [p|p|]; try discriminate)].
+  destruct (c1 =? 60) eqn:E1; [apply Z.eqb_eq in E1; subst c1|
+    destruct c1 as [|p|p]; try discriminate; do 6 (destruct p as [p|p|]; try discriminate)].
+  intro H.
+  (* d and r1 *)
+  assert (Hd : exists d r1, (match r with 45 :: r' => (1%nat, r') | _ => (O, r) end) = (d, r1) /\
+            ((d = 1%nat /\ r = 45 :: r1) \/ (d = O /\ r = r1 /\ forall x, r <> 45 :: x))).
+  { destruct r as [|a r']; [exists O, []; split; [reflexivity|right; repeat split; intros x Hx; discriminate]|].
+    destruct (a =? 45) eqn:Ea.
+    - apply Z.eqb_eq in Ea. subst a. exists 1%nat, r'. split; [reflexivity|left; auto].
+    - exists O, (a :: r'). split.
+      + destruct a as [|p|p]; try reflexivity. do 6 (destruct p as [p|p|]; try reflexivity).
+        discriminate.
+      + right. repeat split. intros x Hx. inversion Hx; subst. discriminate. }
+  destruct Hd as (d & r1 & Hdr & Hcase). rewrite Hdr in H.
+  destruct (ident_len r1) as [|k'] eqn:Ek; [discriminate|]. set (k := S k') in *.
+  destruct (newline_len (skipn k r1)) as [|nl'] eqn:En; [discriminate|]. set (nl := S nl') in *.
+  unfold same in H. inversion H as [Hn]. clear H.
+  pose proof (ident_len_le r1) as Hk. rewrite Ek in Hk. fold k in Hk.
+  pose proof (newline_len_le (skipn k r1)) as Hnl. rewrite En in Hnl. fold nl in Hnl.
+  rewrite skipn_length in Hnl.
+  assert (Hlen : (n <= length (60 :: 60 :: r))%nat).
+  { simpl length. destruct Hcase as [(-> & ->)|(-> & -> & _)]; simpl length; lia. }
+  set (b := firstn (Nat.max 1 n) (60 :: 60 :: r)).
+  assert (Hb : length b = n) by (unfold b; rewrite firstn_length; lia).
+  unfold heredoc_marker.
+  assert (Hn4 : (n >= 4)%nat) by lia.
+  (* b = 60 :: 60 :: firstn (n-2) r *)
+  assert (Eb : b = 60 :: 60 :: firstn (n - 2) r).
+  { unfold b. replace (Nat.max 1 n) with (S (S (n - 2))) by lia. reflexivity. }
+  rewrite Eb. cbn [skipn].
+  set (m0 := firstn (n - 2) r). assert (Hm0 : length m0 = (n - 2)%nat).
+  { unfold m0. rewrite firstn_length. simpl length in Hlen. lia. }
+  assert (Hrl : length (removelast m0) = (n - 3)%nat).
+  { destruct m0 as [|x m0'] eqn:Em; [simpl in Hm0; lia|].
+    rewrite <- Em. pose proof (app_removelast_last 0 (l := m0)) as Hx.
+    assert (m0 <> []) by (rewrite Em; discriminate). specialize (Hx H).
+    apply (f_equal (@length Z)) in Hx. rewrite app_length in Hx. simpl in Hx. rewrite Em in *. simpl in *. lia. }
+  destruct (removelast m0) as [|c m'] eqn:Erl; [simpl in Hrl; lia|].
+  destruct (c =? 45) eqn:Ec.
+  - (* the slice starts with '-': it must be the dash of <<- *)
+    apply Z.eqb_eq in Ec. subst c.
+    destruct m' as [|c2 m'']; [|eexists; reflexivity].
+    exfalso. simpl in Hrl.
+    destruct Hcase as [(Hd1 & Hr)|(Hd0 & Hr & Hnd)].
+    + subst d. lia.
+    + (* d = 0: r starts with 45, impossible for an identifier *)
+      assert (Hr45 : exists x, r = 45 :: x).
+      { unfold m0 in Erl. destruct r as [|a r']; [destruct (n - 2)%nat; discriminate|].
+        destruct (n - 2)%nat as [|q] eqn:Eq; [lia|]. cbn [firstn] in Erl.
+        destruct (firstn q r') eqn:Ef; cbn [removelast] in Erl.
+        - discriminate.
+        - inversion Erl. subst a. eexists; reflexivity. }
+      destruct Hr45 as (x & Hx). exact (Hnd x Hx).
+  - eexists; reflexivity.
 Qed.
